@@ -201,7 +201,7 @@ def build_cases(rng, ctx):
         gs = [g for g in goals if pg.has_exists(g) and not pg.is_floundering_prone(g)]
         if gs:
             work.append((p, pg.to_text(p), gs))
-    for _ in range(ctx.n(45, 1500)):
+    for _ in range(ctx.n(40, 500)):
         p = rng.choice(SHAPES)(rng)
         if rng.random() < 0.4:
             p = pg.permute(p, rng)
@@ -315,7 +315,7 @@ def run(ctx):
                             "flags": longest.flags[:4], "drained": drained})
 
     imports = ("Engine.SlgTable",)
-    mcodes, mfail = logic.coq_codes(ctx.work, "model", {}, mexprs, shard=max(60, len(mexprs) // 4 + 1), imports=imports)
+    mcodes, mfail = logic.coq_codes(ctx.work, "model", {}, mexprs, shard=max(80, len(mexprs) // 2 + 1), imports=imports)
     if mfail:
         raise core.CheckFailure("coq evaluation failed: %s" % (mfail[0],))
     for (desc, k), c in zip(mmeta, mcodes):
@@ -326,7 +326,7 @@ def run(ctx):
                       "broken": "SlgTable.solve_multiple (model of solve_multiple/peek_answer/push_answer) disagrees with the real run although the observable property holds"})
             ctx.violation(d, no_input=True)
             break
-    codes, fail = logic.coq_codes(ctx.work, "enum", defs, exprs, shard=max(8, len(exprs) // 14 + 1), imports=imports, timeout=1200)
+    codes, fail = logic.coq_codes(ctx.work, "enum", defs, exprs, shard=max(8, len(exprs) // 8 + 1), imports=imports, timeout=1200)
     if fail:
         raise core.CheckFailure("coq evaluation failed: %s" % (fail[0],))
     verdicts = collections.Counter()
